@@ -74,6 +74,5 @@ func replayUnit(r *core.Run, c map[string]any) {
 	st := &stats{m: map[string]int{}}
 	exp := evalCase(r, "replay", uc.Tree, build(uc.Tree), uc.Options, newHTTP(uc.Options), newGRPC(uc.Options), uc.Accept, st)
 	r.Case(uc.Tree.String()+"|"+uc.Options.key(), true)
-	r.Case(uc.Tree.String()+"|replay", true)
 	r.Sample(map[string]any{"replayed": uc.Tree.String(), "expected": exp})
 }
